@@ -957,11 +957,17 @@ class DateTime(datetime.datetime, Date):
         if day_of_week < WeekDay.MONDAY or day_of_week > WeekDay.SUNDAY:
             raise ValueError("Invalid day of week")
 
-        dt = self if keep_time else self.start_of("day")
+        start = self if keep_time else self.start_of("day")
 
-        dt = dt.subtract(days=1)
-        while dt.day_of_week != day_of_week:
-            dt = dt.subtract(days=1)
+        # Step back from the starting point rather than from the previous
+        # candidate: a calendar day skipped by the timezone (e.g. 2011-12-30
+        # in Pacific/Apia) is normalized forward onto the starting day again,
+        # which would otherwise never terminate.
+        days = 1
+        dt = start.subtract(days=days)
+        while dt.day_of_week != day_of_week or dt >= start:
+            days += 1
+            dt = start.subtract(days=days)
 
         return dt
 
